@@ -37,6 +37,7 @@ class Monitor:
         self.eoi_hooks = []
         self.slice_end_hooks = []
         self.slice_begin_hooks = []
+        self.lost_wakeup_hooks = []  # f(sh, tokrec, why) when the C04 oracle fires
         self.proc_hooks = []       # f(proc) when a process is created
         self.can_hooks = []        # f(edge, op, result, exc) after edge.can_put()/can_get()
         self.call_hooks = []       # f(sh, info, result, exc) after every store API call
